@@ -49,6 +49,23 @@ static Verdict run_c02(const Case &c)
     v.classes.push_back("watchdog_inconclusive");
     return v;
   }
+  if (r.status == CH_EXIT && r.code == 97 && !wapi::has_scheduler())
+  {
+    // real threads under ThreadSanitizer: the file is a function of (plaintext, key, modes, seed, T) only if the worker
+    // streams do not share data that one of them writes
+    size_t p1 = r.detail.find("WARNING:");
+    std::string first = r.detail.substr(p1 == std::string::npos ? 0 : p1, 700);
+    for (auto &ch : first)
+      if (ch == '\n')
+        ch = '|';
+    if (r.detail.find("/kernel/") == std::string::npos)
+    {
+      Verdict f = Verdict::fail("harness: ThreadSanitizer report without a frame in wencry: " + first);
+      f.infra = true;
+      return f;
+    }
+    return bad("ThreadSanitizer: while the file is being written, pipeline threads race on shared data inside wencry - what the file contains then depends on timing, not only on (plaintext, key, modes, seed, T): " + first);
+  }
   if (r.status != CH_OK)
     return bad("encryption did not complete: " + r.describe());
   De d(r.payload);
